@@ -7,6 +7,8 @@ import (
 	"crypto/x509"
 	"encoding/pem"
 	"fmt"
+	"github.com/theparanoids/ysshra/config"
+	"github.com/theparanoids/ysshra/crypki"
 	"golang.org/x/crypto/ssh"
 	"net"
 	"os"
@@ -220,6 +222,12 @@ func (s *CAServer) PostUserSSHCertificate(ctx context.Context, req *pb.SSHCertif
 		return &pb.SSHKey{Key: ""}, nil
 	case "unparsable":
 		return &pb.SSHKey{Key: "this is not a key\nneither is this\n"}, nil
+	case "slowerr": // fails, but only after HangFor (a CA that reports its error late)
+		select {
+		case <-ctx.Done():
+		case <-time.After(s.Spec.HangFor):
+		}
+		return nil, status.Error(codes.Internal, "verif: late failure")
 	case "hang":
 		select {
 		case <-ctx.Done():
@@ -383,4 +391,26 @@ func (g *CAGroup) Stop() {
 			s.ln.Close()
 		}
 	}
+}
+
+// NewCrypkiSigner builds the repository's signer either directly from the struct or, when viaMap is
+// set, the way cmd/gensign does: from the "signer" map of a gensign configuration (mapstructure
+// decoding with the documented key names, durations as strings).
+func NewCrypkiSigner(c crypki.SignerConfig, viaMap bool) (*crypki.Signer, error) {
+	if !viaMap {
+		return crypki.NewSigner(c)
+	}
+	cas := make([]interface{}, len(c.TLSCACertFiles))
+	for i, f := range c.TLSCACertFiles {
+		cas[i] = f
+	}
+	eps := make([]interface{}, len(c.CrypkiEndpoints))
+	for i, e := range c.CrypkiEndpoints {
+		eps[i] = e
+	}
+	m := map[string]interface{}{
+		"tls_client_key_file": c.TLSClientKeyFile, "tls_client_cert_file": c.TLSClientCertFile, "tls_ca_cert_files": cas,
+		"crypki_endpoints": eps, "crypki_port": float64(c.CrypkiPort), "retries": float64(c.Retries), "per_try_timeout": c.PerTryTimeout.String(),
+	}
+	return crypki.NewSignerWithGensignConf(config.GensignConfig{SignerConfig: m})
 }
